@@ -1408,4 +1408,86 @@ theorem runForm_agree (env : Env) : ∀ fuel : Nat, Agree (Interp.runForm env fu
       · simp at h
     · simp at h
 
+/-! ### the nesting budget -/
+
+/-- `rf2` gives a meaning to at least the forms `rf1` gives a meaning to, and the same one. -/
+def RfLe (rf1 rf2 : Form → GS → Res → Option (List Glyph)) : Prop :=
+  ∀ fm gs res gl, rf1 fm gs res = some gl → rf2 fm gs res = some gl
+
+theorem apply_mono (env : Env) {rf1 rf2 : Form → GS → Res → Option (List Glyph)} (h : RfLe rf1 rf2) (s : SState)
+    (op : Op) (args : List Obj) (r : SState × List Glyph) :
+    apply env rf1 s op args = some r → apply env rf2 s op args = some r := by
+  unfold apply
+  split <;> try exact id
+  rename_i n
+  intro hh
+  split at hh
+  · simp at hh
+  · rename_i i hi
+    split at hh
+    · simp at hh
+    · rename_i fm hfm
+      simp only at hh ⊢
+      split at hh
+      · simp at hh
+      · rename_i gl hrun
+        simp only [h _ _ _ _ hrun]
+        exact hh
+
+theorem step_mono (env : Env) {rf1 rf2 : Form → GS → Res → Option (List Glyph)} (h : RfLe rf1 rf2) (s : SState)
+    (i : Instr) (r : SState × List Glyph) : step env rf1 s i = some r → step env rf2 s i = some r := by
+  unfold step
+  split
+  · exact id
+  · split
+    · exact id
+    · split
+      · exact id
+      · split
+        · exact id
+        · split
+          · exact id
+          · exact apply_mono env h s i.op i.args r
+
+theorem runInstrs_mono (env : Env) {rf1 rf2 : Form → GS → Res → Option (List Glyph)} (h : RfLe rf1 rf2)
+    (is : List Instr) : ∀ (s : SState) (r : SState × List Glyph),
+    runInstrs env rf1 s is = some r → runInstrs env rf2 s is = some r := by
+  induction is with
+  | nil => intro s r hh; simpa [runInstrs] using hh
+  | cons i rest ih =>
+    intro s r hh
+    simp only [runInstrs] at hh ⊢
+    split at hh
+    · simp at hh
+    · rename_i s1 g1 h1
+      rw [step_mono env h s i _ h1]
+      simp only
+      split at hh
+      · simp at hh
+      · rename_i s2 g2 h2
+        rw [ih s1 _ h2]
+        exact hh
+
+/-- Raising the nesting budget never changes a result already obtained: the budget is only a
+bound on the depth of `Do`, not part of the meaning. -/
+theorem runForm_fuel_mono (env : Env) : ∀ fuel : Nat, RfLe (TextModel.runForm env fuel) (TextModel.runForm env (fuel + 1))
+  | 0 => by intro fm gs res gl h; simp [TextModel.runForm] at h
+  | fuel + 1 => by
+    intro fm gs res gl h
+    have ih := runForm_fuel_mono env fuel
+    rw [TextModel.runForm] at h ⊢
+    split at h
+    · rename_i is hparse
+      split at h
+      · rename_i hpro
+        simp only [hpro, if_true]
+        unfold runStream at h ⊢
+        split at h
+        · simp at h
+        · rename_i s' gl' hrun
+          rw [runInstrs_mono env ih is _ _ hrun]
+          exact h
+      · simp at h
+    · simp at h
+
 end PdfVerif.Interp
